@@ -940,6 +940,197 @@ func runC16(a *Args) error {
 		installCase(4, 0, false, []srcFile{{"a.txt", node{}}, {"notation-!", file(false, "!", 7)}, {"notation-fresh", file(true, "fresh", 7)}}, false, ow)
 	}
 
+	// ---- histories: Install -> Get -> [source replaced / removed] -> Get -> Uninstall -> Get -> Install -> Get ----
+	// Every step is its own case on the world as it is at that moment (the entries that
+	// differ from the template are the case's extras); all steps run on the long-lived
+	// manager of the world, and the steps always execute (also in replay mode), so that
+	// the state a step depends on is there.
+	histSeq := 0
+	history := func(d, v int, fromFile, ow bool) {
+		histSeq++
+		name := fmt.Sprintf("h%d", histSeq)
+		installJobs = append(installJobs, func() {
+			wd := worlds[d]
+			wname, rname := fmt.Sprintf("W%d", d), fmt.Sprintf("R%d_%d", d, v)
+			mgr, rr := mgrFor(wd, v)
+			if !wd.built || wd.dirty {
+				wd.build()
+			}
+			tm := map[string]node{}
+			for _, e := range wd.tmpl {
+				tm[e.Path] = e.N
+			}
+			srcFile := srcDir + "/notation-" + name
+			src := srcDir
+			if fromFile {
+				src = srcFile
+			}
+			putSource := func(ver int) {
+				os.RemoveAll(wd.real(srcDir))
+				es := []entry{{srcDir, node{Dir: true}}, {srcFile, file(true, name, ver)}}
+				if !fromFile {
+					es = append(es, entry{srcDir + "/lib.so", node{}})
+				}
+				for _, e := range es {
+					if err := wd.writeEntry(e); err != nil {
+						panic(err)
+					}
+				}
+			}
+			// one step: returns false when the world no longer extends the template
+			step := func(c *c16Case, opTerm string, f func() (string, string)) bool {
+				my := id
+				id++
+				before := wd.snapshot()
+				var extras []entry
+				for p, n := range before {
+					if t, ok := tm[p]; !ok || !t.eq(n) {
+						extras = append(extras, entry{p, n})
+					}
+				}
+				for p := range tm {
+					if _, ok := before[p]; !ok && p != canonTop {
+						return false
+					}
+				}
+				sort.Slice(extras, func(i, j int) bool { return extras[i].Path < extras[j].Path })
+				os.Remove(wd.marker())
+				errc, metaT := f()
+				after := wd.snapshot()
+				var o fsObs
+				o.exec = wd.readMarker()
+				for p := range before {
+					if _, ok := after[p]; !ok {
+						o.removed = append(o.removed, p)
+					}
+				}
+				for p, n := range after {
+					if b, ok := before[p]; !ok || !b.eq(n) {
+						o.written = append(o.written, entry{p, n})
+					}
+				}
+				sort.Strings(o.removed)
+				sort.Slice(o.written, func(i, j int) bool { return o.written[i].Path < o.written[j].Path })
+				if w.Want(my) {
+					c.Depth, c.Root, c.Extras = d, rootSpell(wd, v), extras
+					c.Op = "history-" + c.Op
+					emit(my, c, wd, wname, rname, extras, opTerm, errc, metaT, o, nil, true)
+				}
+				return true
+			}
+			getStep := func() bool {
+				c := &c16Case{Op: "get", Name: strconv.Quote(name)}
+				return step(c, CApp("OGet", CStr(name)), func() (string, string) {
+					cctx, cancel := context.WithTimeout(ctx, 20*time.Second)
+					defer cancel()
+					p, err := mgr.Get(cctx, name)
+					if err != nil {
+						c.ErrText = Short(err.Error(), 200)
+						return classify(err), "MNone"
+					}
+					md, err := p.GetMetadata(cctx, &pluginfw.GetMetadataRequest{})
+					if err != nil {
+						c.ErrText = Short(err.Error(), 200)
+						return "ENone", "MErr"
+					}
+					ver, _ := strconv.Atoi(strings.TrimPrefix(md.Version, "1.0."))
+					return "ENone", CApp("MOk", CN(int64(ver)))
+				})
+			}
+			installStep := func() bool {
+				c := &c16Case{Op: "install", Name: strconv.Quote("notation-" + name), Src: src, Overwrite: ow}
+				return step(c, CApp("OInstall", CStr(src), CBool(ow)), func() (string, string) {
+					cctx, cancel := context.WithTimeout(ctx, 30*time.Second)
+					defer cancel()
+					_, _, err := mgr.Install(cctx, plugin.CLIInstallOptions{PluginPath: wd.real(src), Overwrite: ow})
+					if err != nil {
+						c.ErrText = Short(err.Error(), 200)
+					}
+					return classify(err), "MNone"
+				})
+			}
+			uninstallStep := func() bool {
+				c := &c16Case{Op: "uninstall", Name: strconv.Quote(name)}
+				return step(c, CApp("OUninstall", CStr(name)), func() (string, string) {
+					err := mgr.Uninstall(ctx, name)
+					if err != nil {
+						c.ErrText = Short(err.Error(), 200)
+					}
+					return classify(err), "MNone"
+				})
+			}
+			_ = rr
+			verifyStep := func() bool {
+				env, seen, okEnv := vf.envelope(MtJWS, name)
+				if !okEnv || seen != name {
+					id++
+					return true
+				}
+				c := &c16Case{Op: "verify", Name: strconv.Quote(name), Format: MtJWS}
+				return step(c, CApp("OVerify", CStr(name)), func() (string, string) {
+					vr := verifiers[mgrKey{d, v}]
+					if vr == nil {
+						var err error
+						vr, err = verifier.New(vf.policy, vf.store, mgr)
+						if err != nil {
+							panic(fmt.Sprintf("c16: verifier: %v", err))
+						}
+						verifiers[mgrKey{d, v}] = vr
+					}
+					cctx, cancel := context.WithTimeout(ctx, 30*time.Second)
+					defer cancel()
+					_, err := vr.Verify(cctx, vf.desc, env, notation.VerifierVerifyOptions{ArtifactReference: TestRef, SignatureMediaType: MtJWS})
+					if err != nil {
+						msg := err.Error()
+						c.ErrText = Short(msg, 240)
+						if strings.Contains(msg, "error while locating the verification plugin") {
+							switch {
+							case strings.Contains(msg, "invalid plugin name"):
+								return "EInvalid", "MNone"
+							case strings.Contains(msg, "no such file or directory"):
+								return "ENotExist", "MNone"
+							}
+							return "EOther", "MNone"
+						}
+					}
+					return "ENone", "MNone"
+				})
+			}
+			ok := true
+			run := func(f func() bool) {
+				if ok {
+					ok = f()
+				} else {
+					id++ // keep ids stable
+				}
+			}
+			putSource(5)
+			run(getStep)     // not installed yet
+			run(installStep) // installs version 5
+			run(getStep)     // the installed copy
+			putSource(9)     // the source is replaced by another marker-writing script
+			run(getStep)     // still the installed copy (version 5)
+			run(verifyStep)  // the verifier's lookup: the installed copy
+			os.RemoveAll(wd.real(srcDir))
+			run(getStep) // source gone: still the installed copy
+			putSource(7)
+			run(uninstallStep)
+			run(getStep)     // removed: not found, nothing runs (the source exists)
+			run(verifyStep)
+			run(installStep) // version 7
+			putSource(9)
+			run(getStep) // the installed copy (version 7), not the source
+			run(installStep) // upgrade to 9 (or overwrite)
+			putSource(3)
+			run(getStep)
+			os.RemoveAll(wd.real(srcDir))
+			wd.dirty, wd.cur = true, nil
+		})
+	}
+	for k := 0; k < 8; k++ {
+		history(1+k%4, (k/4)%2, k%2 == 0, (k/2)%2 == 0)
+	}
+
 	// interleave
 	{
 		ni, ii := 0, 0
